@@ -68,6 +68,9 @@ Upd(st, e) ==
     [] e.ev = "DelegateState" /\ e.s \in Terminal -> [st EXCEPT !.fin = @ \cup {e.f}]
     [] e.ev = "CancelCall" -> [st EXCEPT !.cancelling = @ \cup {e.f}]
     [] e.ev = "CancelRet" /\ e.a = 1 -> [st EXCEPT !.cancelled = @ \cup {e.f}, !.queued = @ \ {e.f}]
+    \* (a cancel() may still be running the future's - possibly slow - done-callbacks: the future has left the queue
+    \*  as soon as it is seen cancelled)
+    [] e.ev = "Observed" /\ e.s \in CancelledStates -> [st EXCEPT !.cancelled = @ \cup {e.f}, !.queued = @ \ {e.f}]
     [] e.ev = "ShutdownCall" -> [st EXCEPT !.down = TRUE]
     [] OTHER -> st
 
